@@ -137,6 +137,7 @@ type blkDef struct {
 }
 
 type evDef struct {
+	raw  types.Evidence // as built (what a peer would encode); ev is the decoded object
 	id   string
 	ev   types.Evidence
 	kind string
@@ -870,6 +871,7 @@ func (c *chain) define(m map[string]string) (*evDef, bool) {
 	default:
 		return nil, false
 	}
+	d.raw = d.ev
 	d.hash = hash12(d.ev)
 	d.sz = protoSize(d.ev)
 	d.vb = d.ev.ValidateBasic() == nil
